@@ -59,6 +59,10 @@ pub struct Interpreter<TStdlib: Stdlib, TStdIn: Input, TStdOut: Printer, TLpt1: 
     /// Holds addresses to RETURN to after a GOSUB
     go_sub_address_stack: Vec<usize>,
 
+    /// For every pending GOSUB, the sizes of the register stack and the value stack at the
+    /// time of the GOSUB. RETURN can be inside a FOR loop or a SELECT CASE of the subroutine.
+    go_sub_depths: Vec<(usize, usize)>,
+
     /// Holds the current call stack
     stacktrace: Vec<Position>,
 
@@ -290,6 +294,7 @@ impl<TStdlib: Stdlib, TStdIn: Input, TStdOut: Printer, TLpt1: Printer>
             context: Context::new(),
             return_address_stack: vec![],
             go_sub_address_stack: vec![],
+            go_sub_depths: vec![],
             register_stack: vec![Registers::new()],
             stacktrace: vec![],
             file_manager: FileManager::new(),
@@ -482,10 +487,17 @@ impl<TStdlib: Stdlib, TStdIn: Input, TStdOut: Printer, TLpt1: Printer>
             }
             Instruction::GoSub(address_or_label) => {
                 self.go_sub_address_stack.push(i);
+                self.go_sub_depths
+                    .push((self.register_stack.len(), self.value_stack.len()));
                 ctx.opt_next_index = Some(address_or_label.address());
             }
             Instruction::Return(opt_address) => match self.go_sub_address_stack.pop() {
                 Some(address) => {
+                    // leave the FOR loops and SELECT CASE blocks of the subroutine
+                    if let Some((registers, values)) = self.go_sub_depths.pop() {
+                        self.register_stack.truncate(registers.max(1));
+                        self.value_stack.truncate(values);
+                    }
                     ctx.opt_next_index = Some(match opt_address {
                         Some(address_or_label) => address_or_label.address(),
                         _ => address + 1,
